@@ -36,6 +36,8 @@ type Op struct {
 type Case struct {
 	State   bool   `json:"state"`             // StateRoutineContainer
 	Compare bool   `json:"compare"`           // state container has an equality function
+	Coarse  bool   `json:"coarse,omitempty"`  // ... which only compares the value modulo 1000 (an equivalence coarser than ==)
+	OwnCtx  bool   `json:"ownctx,omitempty"`  // root contexts are of a caller-defined Context type (cancellation reaches derived contexts through a goroutine, not synchronously)
 	Retry   []int  `json:"retry"`             // scripted back-off in ms (-1 = Stop); empty = no retry
 	Disable string `json:"disable,omitempty"` // a later option switches retrying off again: "" | retrynil (WithRetry(nil)) | backoffnil (WithBackoff(nil))
 	Full    bool   `json:"full"`              // settle fully after every op (sequential history)
@@ -50,6 +52,8 @@ func genCase(prop string) func(t *rapid.T) Case {
 		var c Case
 		c.State = rapid.IntRange(0, 2).Draw(t, "statekind") == 0
 		c.Compare = rapid.Bool().Draw(t, "compare")
+		c.Coarse = c.State && c.Compare && rapid.IntRange(0, 2).Draw(t, "coarse") == 0
+		c.OwnCtx = rapid.IntRange(0, 3).Draw(t, "ownctx") == 0
 		behs := []string{"manual", "manual", "slowcancel", "slowcancel", "untilcancel", "success", "error"}
 		kinds := []string{"setctx", "setctx", "setctx", "setroutine", "setroutine", "restart", "restart", "finish", "finish", "finish", "probe"}
 		switch prop {
@@ -94,7 +98,7 @@ func genCase(prop string) func(t *rapid.T) Case {
 				op.Nil = rapid.IntRange(0, 5).Draw(t, "nil") == 0
 				op.Beh = rapid.SampledFrom(behs).Draw(t, "beh")
 			case "setstate", "swapstate":
-				op.State = rapid.SampledFrom([]string{"fresh", "fresh", "same", "empty"}).Draw(t, "state")
+				op.State = rapid.SampledFrom([]string{"fresh", "fresh", "same", "empty", "equiv"}).Draw(t, "state")
 			case "finish":
 				op.Out = rapid.SampledFrom([]string{"nil", "err", "err", "ctxerr"}).Draw(t, "out")
 				op.Pick = rapid.IntRange(0, 3).Draw(t, "pick")
@@ -131,6 +135,37 @@ func genCase(prop string) func(t *rapid.T) Case {
 }
 
 type ctxKey struct{}
+
+// ownCtx is a context type of the caller's own (think of a context joining two
+// parents). The context package cannot link derived contexts to it directly:
+// WithCancel(ownCtx) watches its Done channel from a goroutine, so a cancellation
+// reaches the derived contexts a little later, not before cancel() returns.
+type ownCtx struct {
+	context.Context // Value, Deadline
+	mu              sync.Mutex
+	done            chan struct{}
+	err             error
+}
+
+func newOwnCtx(values context.Context) (context.Context, context.CancelFunc) {
+	c := &ownCtx{Context: values, done: make(chan struct{})}
+	return c, func() {
+		c.mu.Lock()
+		if c.err == nil {
+			c.err = context.Canceled
+			close(c.done)
+		}
+		c.mu.Unlock()
+	}
+}
+
+func (c *ownCtx) Done() <-chan struct{} { return c.done }
+
+func (c *ownCtx) Err() error {
+	c.mu.Lock()
+	defer c.mu.Unlock()
+	return c.err
+}
 
 type instance struct {
 	id       int
@@ -202,10 +237,11 @@ func run(t *testing.T, cs Case) *ev.Verdict {
 	v := &ev.Verdict{}
 	canon, _ := json.Marshal(struct {
 		S, C, F bool
+		Co, Own bool
 		R       []int
 		D       string
 		Ops     []Op
-	}{cs.State, cs.Compare, cs.Full, cs.Retry, cs.Disable, cs.Ops})
+	}{cs.State, cs.Compare, cs.Full, cs.Coarse, cs.OwnCtx, cs.Retry, cs.Disable, cs.Ops})
 	v.Canon = string(canon)
 	c, berr := sched.Run(t, parkPoints, cs.Sched, func(c *sched.Ctl) { body(c, cs, v) })
 	v.Trace = c.Trace()
@@ -232,7 +268,7 @@ func body(c *sched.Ctl, cs Case, v *ev.Verdict) {
 		vm.Unlock()
 	}
 	t0 := time.Now()
-	m := &model{compare: cs.Compare, now: func() time.Duration { return time.Since(t0) }}
+	m := &model{compare: cs.Compare, coarse: cs.Coarse, now: func() time.Duration { return time.Since(t0) }}
 	var bo *scriptBO
 	if len(cs.Retry) > 0 {
 		m.retry = cs.Retry
@@ -262,6 +298,9 @@ func body(c *sched.Ctl, cs Case, v *ev.Verdict) {
 		var cmp func(a, b int) bool
 		if cs.Compare {
 			cmp = func(a, b int) bool { return a == b }
+			if cs.Coarse {
+				cmp = func(a, b int) bool { return a%1000 == b%1000 }
+			}
 		}
 		sc = routine.NewStateRoutineContainer[int](cmp, opts...)
 	} else {
@@ -633,6 +672,9 @@ func body(c *sched.Ctl, cs Case, v *ev.Verdict) {
 			switch op.Ctx {
 			case "new":
 				ctx, cancel := context.WithCancel(context.WithValue(context.Background(), ctxKey{}, len(ctxs)))
+				if cs.OwnCtx {
+					ctx, cancel = newOwnCtx(context.WithValue(context.Background(), ctxKey{}, len(ctxs)))
+				}
 				ctxs = append(ctxs, ctx)
 				cancels = append(cancels, cancel)
 				cid = len(ctxs) - 1
@@ -750,6 +792,12 @@ func body(c *sched.Ctl, cs Case, v *ev.Verdict) {
 				st = nextState
 			case "same":
 				st = m.state
+			case "equiv":
+				// a different value that the coarse equality function calls equal to the stored one
+				st = m.state
+				if cs.Coarse && m.state != 0 {
+					st = m.state%1000 + 1000*(1+m.state/1000)
+				}
 			}
 			var wantCh, wantChanged, wantReset, wantRunning bool
 			var before []*instance
@@ -1077,6 +1125,9 @@ func body(c *sched.Ctl, cs Case, v *ev.Verdict) {
 	}
 	if rootCancelled {
 		v.Class("root-context-cancelled-by-its-owner")
+	}
+	if cs.OwnCtx {
+		v.Class("caller-defined-context-type")
 	}
 }
 
